@@ -117,7 +117,12 @@ def classify(r, src, nfiles_lines):
         func = re.sub(r"::\{\{closure\}\}|::h[0-9a-f]{16}$", "", func or "?")
         msg = re.sub(r"\d+", "#", (unhx(r.get("msg")) or "").split("\n")[0])[:60]
         # call site = source file of the panic + innermost library function on the stack + message (no line numbers)
-        return ("panic@%s@%s:%s" % (fname, func, msg), "panic at %s in %s: %s" % (where, func, (unhx(r.get("msg")) or "").split("\n")[0][:80]))
+        sig = "panic@%s@%s:%s" % (fname, func, msg)
+        # check_branches gives up on ANY branch whose label is missing: the recorded finding is the `continue` inside a
+        # `switch` outside a loop — the same site reached by an input without that construct is a different defect
+        if "check_branches" in func and "unreachable" in msg and not re.search(r"switch\b[^}]*\bcontinue\b", src, re.S):
+            sig += ":no-continue-in-switch"
+        return (sig, "panic at %s in %s: %s" % (where, func, (unhx(r.get("msg")) or "").split("\n")[0][:80]))
     if st == "timeout":
         return ("timeout", "compilation does not terminate")
     if st == "abort":
@@ -141,6 +146,7 @@ def run(chk):
     cases += context_cases()
     import idioms
     cases += [idioms.wrap(st) for st in idioms.statements()]      # operand kind x assignment form x right operand
+    cases += idioms.signed_programs()                                # signed comparisons / widening, also inside inline functions
     for d in DIRECTIVES:
         cases.append("char a;\n%s\nvoid main() { a = 1; }\n" % d)
         cases.append("%s\n" % d)
